@@ -219,16 +219,18 @@ def coverage_gate(ctx, stats, events):
         raise C.ToolError("coverage gate: " + "; ".join(need[:8]))
 
 
-def binding_demo(ctx, events):
-    """corrupt one field / drop one event of a real, accepted trace: TLC must reject it"""
+def binding_demo(ctx, events, bad_segs=()):
+    """corrupt one field / drop one event of a real trace that the judge ACCEPTED: TLC must reject it.
+    bad_segs: scenario ids in which the judge reported any violation - they are not used as corruption targets
+    (after a C04 violation the rest of such a scenario is no longer judged, a corruption there proves nothing)"""
     pid = ctx.pid
     is_op = lambda e: e["e"] == "Op" and not e["op"].startswith(("fvs", "buf"))
-    # a clean prefix: whole scenarios of the transports only, up to ~400 events
+    # whole violation-free scenarios of the transports only, up to ~400 events
     clean, cur = [], []
     for e in events:
         cur.append(e)
         if e["e"] == "End":
-            if cur[0].get("tr") != "fvs":
+            if cur[0].get("tr") != "fvs" and cur[0].get("e") == "Reset" and cur[0].get("seg") not in bad_segs:
                 clean += cur
             cur = []
             if len(clean) > 400:
@@ -418,14 +420,17 @@ def run(ctx):
     steps = RANDOM_STEPS[tier]
     chunk = 25000
     ev_random = []
+    bad_random = set()       # scenarios of the first chunk in which the judge reported anything
     part = 0
     while steps > 0:
         n = min(chunk, steps)
         rf = ctx.path("random_%d.ndjson" % part)
         run_harness(ctx, bindir, ["random", rf, n], rf, {"VERIF_SEED": ctx.seed * 1000 + part})
-        evs, _ = validate(ctx, rf, "random driver seed %d" % (ctx.seed * 1000 + part),
-                          rerun={"cmd": "random", "steps": n, "seed": ctx.seed * 1000 + part})
+        evs, vs = validate(ctx, rf, "random driver seed %d" % (ctx.seed * 1000 + part),
+                           rerun={"cmd": "random", "steps": n, "seed": ctx.seed * 1000 + part})
         ev_random += evs if part == 0 else []
+        if part == 0:
+            bad_random = {evs[i - 1].get("seg") for _, i, _ in vs if 0 < i <= len(evs)}
         if part > 0:
             # keep the statistics of every chunk without holding all events
             for kx, vx in op_stats(evs).items():
@@ -440,8 +445,19 @@ def run(ctx):
         d = collections.Counter(stats.get(kx, {}))
         d.update(vx)
         stats[kx] = dict(d)
-    coverage_gate(ctx, stats, ev_replay + ev_random)
-    demos = binding_demo(ctx, ev_random)
+    # A tool error must never mask a detected violation: once violations (or known findings) are on record, a
+    # failing coverage gate / binding demonstration is written into the evidence as a note and the check exits 1.
+    def guarded(name, fn):
+        try:
+            return fn()
+        except C.ToolError as e:
+            if ctx.violations or ctx.known_hit:
+                ctx.extra.setdefault("gates_not_passed_while_violations_were_reported", []).append("%s: %s" % (name, e))
+                C.log("NOTE %s not passed (violations are reported, so this is not a tool error): %s" % (name, e))
+                return None
+            raise
+    guarded("coverage gate", lambda: coverage_gate(ctx, stats, ev_replay + ev_random))
+    demos = guarded("binding demo", lambda: binding_demo(ctx, ev_random, bad_random)) or []
 
     shapes = collections.Counter()
     for e in ev_replay + ev_random:
